@@ -545,7 +545,7 @@ struct E1 : Engine {
 		if(!run_exception.empty()) res.fail("exception-escaped",run_exception);
 		res.hash = simk::trace_hash();
 		simk::Stats st = simk::stats();
-		int leaked = simk::open_sim_fds();
+		int leaked = simk::open_sim_fds(); long long sim_s = (long long)((simk::now_us() - sp.start_time_s*1000000LL)/1000000);
 		simk::end();
 		AW = nullptr;
 		// ------------------------------------------------------------ oracles
@@ -629,7 +629,7 @@ struct E1 : Engine {
 		res.counters["raw_mode_responses"] = n_raw; res.counters["client_aborts_mid_response"] = n_aborted; res.counters["filter_on_error_calls"] = n_on_error; res.counters["content_filter_requests"] = n_filtered; res.counters["filters_installed"] = aw.filters_installed; res.counters["over_limit_413"] = n_over_limit; res.counters["gzip_announced_empty_body"] = n_gzip_empty; res.counters["malformed_exchanges"] = n_bad; res.counters["malformed_refused_as_required"] = n_bad_refused; res.counters["page_cache_hits"] = n_cache_hits; res.counters["exchanges"] = n_ex; res.counters["multi_segment_requests"] = n_multi_seg; res.counters["requests_with_body"] = n_body; res.counters["keepalive_followups"] = n_keepalive_followups; res.counters["writer_responses"] = n_writer; res.counters["gzip_responses"] = n_gzip; res.counters["chunked_responses"] = n_chunked;
 		res.counters["steps"] = (long long)st.steps; res.counters["switches"] = (long long)st.switches; res.counters["short_reads"] = (long long)st.short_reads; res.counters["short_writes"] = (long long)st.short_writes; res.counters["eagain"] = (long long)(st.eagain_r + st.eagain_w);
 		res.counters["eintr"] = (long long)st.eintr; res.counters["spurious_wakeups"] = (long long)st.spurious; res.counters["accepts"] = (long long)st.accepts; res.counters["bytes_to_server"] = (long long)st.bytes_rx; res.counters["bytes_to_client"] = (long long)st.bytes_tx;
-		res.counters["sim_seconds"] = 0; res.counters[rt == 0 ? "reactor_epoll" : rt == 1 ? "reactor_poll" : "reactor_select"] = 1;
+		res.counters["sim_seconds"] = sim_s; res.counters[rt == 0 ? "reactor_epoll" : rt == 1 ? "reactor_poll" : "reactor_select"] = 1;
 		if(n_multi_seg + n_body > 0) res.nt = res.hash ? res.hash : 1;
 		return res;
 	}
